@@ -251,6 +251,23 @@ def write_partition(d, groups, shape, rnd):
         paths.append(out)
         if keep_plain:
             paths.append(keep_plain)
+    elif shape in ('rundirs', 'rundirs_parent', 'samefiles'):
+        # repeated runs, each writing a file of the SAME name into a directory of its own (what BaseSimulation's default label 'results' produces)
+        for j, c in enumerate(chunks):
+            sub = os.path.join(d, 'run_%d' % j, 'out') if j % 2 else os.path.join(d, 'run_%d' % j)
+            os.makedirs(sub)
+            fp = os.path.join(sub, 'results.json.gz' if shape != 'samefiles' or j % 2 == 0 else 'results.json')
+            if fp.endswith('.gz'):
+                with gzip.open(fp, 'wb') as g:
+                    g.write(json.dumps(c).encode())
+            else:
+                json.dump(c, open(fp, 'w'))
+            if shape == 'rundirs':
+                paths.append(os.path.join(d, 'run_%d' % j))
+            elif shape == 'samefiles':
+                paths.append(fp)
+        if shape == 'rundirs_parent':
+            paths.append(d)
     elif shape == 'dir':
         sub = os.path.join(d, 'sub'); os.makedirs(sub)
         for j, c in enumerate(chunks):
@@ -306,7 +323,7 @@ def native_conservation(groups, shape, rnd):
 
 def replay(r):
     rnd = random.Random(0)
-    for shape in ('single', 'many', 'gzip', 'zip', 'merged', 'merged2', 'mixed', 'dir'):
+    for shape in SHAPES:
         groups = synth_records(rnd)
         try:
             why = native_conservation(groups, shape, rnd)
@@ -332,12 +349,15 @@ def replay_file(data):
     return replay({})
 
 
+SHAPES = ('single', 'many', 'gzip', 'zip', 'merged', 'merged2', 'mixed', 'dir', 'rundirs', 'rundirs_parent', 'samefiles')
+
+
 def bounded(tier, seed):
     rnd = random.Random(seed)
     ev, nt, viol, samples = 0, set(), [], []
     for rep in range(2 if tier == 'quick' else 10):
         groups = synth_records(rnd, 3 if tier == 'quick' else 5)
-        for shape in ('single', 'many', 'gzip', 'zip', 'merged', 'merged2', 'mixed', 'dir'):
+        for shape in SHAPES:
             try:
                 why = native_conservation(groups, shape, rnd)
             except Exception as e:      # noqa
@@ -351,5 +371,5 @@ def bounded(tier, seed):
     for v in viol:
         if v['obligation'] not in seen:
             seen.add(v['obligation']); out.append(v)
-    return dict(bound='%d synthetic multisets (3-5 configurations, k in {1,2,3}, 5-30 trials each) x 8 partition shapes (single file, many files, gzip, zip with nested json/json.gz, merge-results output, merge of merges, merge of merges next to a plain file, directory), random splits and order' % (2 if tier == 'quick' else 10),
+    return dict(bound='%d synthetic multisets (3-5 configurations, k in {1,2,3}, 5-30 trials each) x 11 partition shapes (single file, many files, gzip, zip with nested json/json.gz, merge-results output, merge of merges, merge of merges next to a plain file, directory, one directory per run each holding a file of the same name - passed as a list of directories, as their parent, as a list of files), random splits and order' % (2 if tier == 'quick' else 10),
                 evaluations=ev, distinct_nontrivial=len(nt), rule='real Analysis(...) vs independently pooled counts', samples=samples[:6], violations=out)
